@@ -31,6 +31,10 @@ prop(
                "now and from every threshold (staleness, min-age, window start), so verdicts are stable while a case runs; cases where the "
                "two oracle probes disagree are skipped and counted. Exemption semantics follow docs/checks/promql/series.md (a comment "
                "selector covers a query selector when all of its matchers, including the metric name, appear on it).",
+    known_note="Cases whose every clause-(2) miss concerns a metric with no sample inside [now-lookback, now] but at least one inside the "
+               "slice-alignment zone (from the 2h slice-grid instant at or before now-lookback up to now-lookback; computed from the case's "
+               "database) are routed to the listed known finding 'samples-just-before-lookback-window' and counted (counters "
+               "known_class_cases, selectors_must_be_reported_with_samples_in_alignment_zone); the patterns that produce them stay in the generator.",
     assumptions=["the lookback window is [now - lookbackRange, now] as documented",
                  "a promql/series problem 'points at' a selector when its first diagnostic's column range overlaps the selector's position"],
 )
